@@ -513,20 +513,22 @@ class LBFGSB:
         )
         self._solver_kwargs["callback"] = monitor
 
-        final_vector, final_f, lbfgsb_info = fmin_l_bfgs_b(
-            lbfgsb_func_grad,
-            x0,
-            fprime=None,
-            approx_grad=False,
-            bounds=[(lower_bound, np.inf)] * len(x0),
-            **self._non_empty_kwargs(),
-        )
+        try:
+            final_vector, final_f, lbfgsb_info = fmin_l_bfgs_b(
+                lbfgsb_func_grad,
+                x0,
+                fprime=None,
+                approx_grad=False,
+                bounds=[(lower_bound, np.inf)] * len(x0),
+                **self._non_empty_kwargs(),
+            )
+        finally:
+            # Unregister monitor in case of reuse (also when the solve raised)
+            self._solver_kwargs["callback"] = monitor.callback
         model.update(np.arange(initial_model.ndims), final_vector)
 
         lbfgsb_info["final_f"] = final_f
         lbfgsb_info["callback"] = vars(monitor)
-        # Unregister monitor in case of reuse
-        self._solver_kwargs["callback"] = monitor.callback
 
         # TODO big print output
         return model, lbfgsb_info
